@@ -182,10 +182,10 @@ func (lr *lbRun) run() *lbResult {
 		return res
 	}
 	for _, c := range convs {
-		if c.GenOK && c.ExpectFail {
+		if c.GenOK && c.ExpectFail && !c.AnyOutcome {
 			res.GenUnexp = append(res.GenUnexp, c)
 		}
-		if !c.GenOK && !c.ExpectFail {
+		if !c.GenOK && !c.ExpectFail && (!c.AnyOutcome || c.GenCrash != "") {
 			res.GenFail = append(res.GenFail, c)
 		}
 	}
